@@ -1,6 +1,6 @@
 (* Extract.v — extraction of the executable model to OCaml (ExtrOcamlBasic only). *)
 From Coq Require Extraction ExtrOcamlBasic.
-From RS Require Import Base Network NetSpec Tour TourSpec SchedObs Output Pipeline Transition TransSpec LocalSearch TourExactFacts OpSpec Flow LoadStmts Schedule Swaps PipelineSched Render.
+From RS Require Import Base Network NetSpec Tour TourSpec SchedObs Output Pipeline Transition TransSpec LocalSearch TourExactFacts OpSpec Flow LoadStmts Schedule Swaps PipelineSched Render Hyps.
 Extraction Language OCaml.
 Extraction "model.ml" load nd can_reach successors predecessors service_nodes all_service_nodes
   capacity_of total_capacity_of get_start_depot_node get_end_depot_node
@@ -20,4 +20,4 @@ Extraction "model.ml" load nd can_reach successors predecessors service_nodes al
   empty_schedule spawn_vehicle_for_path spawn_to_replace_dummy replace_vehicle_by_dummy add_path_to_vehicle_tour
   remove_segment fit_reassign override_reassign improve_depots reassign_end_depots_greedily recompute_transitions_for
   reassign_end_depots_consistent set_next_day_transitions vehicles_iter_all vehicles_iter tour_of vget nget uget zget
-  spawned_total coverable_nodes neighbors candidates apply_cand from_tours tfn render.
+  spawned_total coverable_nodes neighbors candidates apply_cand from_tours tfn render inst_unsigned_b tours_ok_b.
